@@ -32,12 +32,18 @@ func randCases(tier string) int { return vlib.TierN(tier, 752, 62208) }
 func aliasCases(tier string) int { return vlib.TierN(tier, 160, 8000) }
 func retryCases(tier string) int { return vlib.TierN(tier, 320, 16000) }
 
+// classes added in round 6 (appended again)
+func rejectedCases(tier string) int { return vlib.TierN(tier, 160, 8000) }
+func reuseCases(tier string) int    { return vlib.TierN(tier, 320, 16000) }
+
 func init() {
 	vlib.Register(&vlib.Prop{
 		ID:              "C09",
 		Level:           "exploration",
 		RaceIsViolation: false,
-		Cases:           func(tier string) int { return exhBlocks(tier) + randCases(tier) + aliasCases(tier) + retryCases(tier) },
+		Cases: func(tier string) int {
+			return exhBlocks(tier) + randCases(tier) + aliasCases(tier) + retryCases(tier) + rejectedCases(tier) + reuseCases(tier)
+		},
 		Rule: "exhaustive part (class exh): every middleware registration sequence over {router-level, handler A, handler B} of length 0..5 (quick) / 0..6 (thorough), " +
 			"with AddHandler(A)/AddHandler(B) in every position the API allows (before the first registration on that handler; both orders when adjacent), each also with " +
 			"adjacent same-target registrations folded into one variadic call when that differs; all before Run. The enumeration is cut into contiguous blocks, one block per case " +
@@ -54,16 +60,27 @@ func init() {
 			"returns an error on its n-th (n<=4) and possibly n+1-th invocation, or a handler subscriber whose first one or two Subscribe calls fail (after the decoration succeeded). A Run/RunHandlers call that returns the injected " +
 			"error is retried with RunHandlers until it returns nil, with no registration in between (after a failed Run half the programs first call Run again, which the router refuses with 'router is already running', then RunHandlers; the handlers a failed Run had started are stopped by Run's own context cancel and are not judged); " +
 			"handlers that a failed RunHandlers did start get their message before or after the retry. Every finally running handler must show each decorator exactly once in the order added (clauses retry-pubdec, retry-subdec) and its middleware chain. " +
+			"Class rejected: rand programs plus 1..4 calls that fail as documented and are recovered by the caller: AddHandler or AddNoPublisherHandler with a name that is taken (the same name, topic, subscriber and publisher again; panics with DuplicateHandlerNameError), " +
+			"Handler.Stop on a not yet started handler (panics), RunHandlers before Run (returns an error); 80% target a handler with handler-level middlewares, mostly between one of its registrations and the Run/RunHandlers call that starts it (before Run as well as on a running router), 20% anywhere later. " +
+			"A rejected call registers nothing: the model ignores it, every handler must run what was registered (clauses rejected-mw-missing / rejected-mw-foreign / rejected-mw-order for the targeted handlers). " +
+			"Class reuse: a rand program (at whose end all 4 handlers run and have handled a message) followed by 1..3 rounds: [a bystander handler whose name extends the reused name is added with 0..2 middlewares, not started] a running handler " +
+			"(70%: one with handler-level middlewares; also a previously re-registered one) is stopped by Handler.Stop or by closing its subscriber and its NAME is registered again with AddHandler/AddNoPublisherHandler (new topic, subscriber, publisher), immediately followed by " +
+			"AddMiddleware of 0..3 middlewares on the new handler; timing of the re-registration: wait = after <-old.Stopped(); step = the router's LoggerAdapter (a harness logger) parks every call that a router goroutine makes through the logger the Router derived with With() for the stopping handler (recognised by the topic field), at each parked call the caller reads Router.Handlers() and " +
+			"re-registers as soon as the name is not listed, then releases the call; poll = a goroutine started before the stop retries AddHandler until it no longer panics with DuplicateHandlerNameError while the logger yields; poll-slow = same with a logger that holds every call of a router " +
+			"goroutine until the retrying goroutine failed 2..6 more times or is done (the logger never looks at the message text; calls made from harness goroutines pass). The round goes on after old.Stopped() is closed with router-level and further handler-level registrations, in 40% rejected calls as above, and RunHandlers; " +
+			"the new handler (and the bystander) get one message: exactly the router-level middlewares plus its own in registration order, none of the stopped handler's (clauses reuse-mw-missing / reuse-mw-foreign / reuse-mw-order). " +
 			"One message per started handler per round; each is judged against the reference model. " +
 			"A case is non-trivial when at least one judged handler ran >=2 middlewares mixing router-level and handler-level ones (nesting order observable) and at least one judged handler had a foreign " +
 			"handler's middleware registered before its start (exclusion observable); alias cases need in addition >=1 aliased call; retry cases instead need >=1 fault that fired, >=1 judged handler that a failed call had left unstarted " +
-			"and >=1 judged handler with >=2 publisher or subscriber decorators; distinct = distinct block (exh) or distinct hash of the program texts incl. argument-passing marks and fault plans (rand, alias, retry).",
+			"and >=1 judged handler with >=2 publisher or subscriber decorators; rejected cases need in addition >=1 duplicate-name call that hit a not yet started handler with handler-level middlewares; reuse cases need in addition >=1 judged re-registered handler with middlewares of its own whose predecessor had some too; distinct = distinct block (exh) or distinct hash of the program texts incl. argument-passing marks, fault plans, rejected calls and reuse rounds (rand, alias, retry, rejected, reuse).",
 		Assumptions: []string{
 			"all registrations that may affect a handler happen before the Run/RunHandlers call that starts it; before further registrations are made every started handler has handled one message (so its asynchronous middleware snapshot is taken): registrations after a handler's start are unspecified and never judged",
 			"decorators are added before Run only",
 			"what a registration call registers is the value of its arguments when the call is made: the caller may re-use, append to or overwrite its own slice after the call returned (Go passes s... by reference; the property speaks about registrations, not about slices)",
 			"retry classes: an error returned by a decorator or by Subscribe is transient and the caller reacts by calling RunHandlers again (godoc: 'RunHandlers is idempotent, so can be called multiple times safely'); a failing call registers nothing and must leave nothing behind that changes which decorators act on the handler's messages once it runs; only injected errors are retried, any other error is inconclusive",
 			"a message that is never handled although the process is quiescent is reported as clause no-run (decided by the quiescence detector); a hang in Close/Run-return is reported inconclusive, it belongs to C06/C07",
+			"class rejected: only calls whose failure is documented (typed panic DuplicateHandlerNameError, panic 'handler is not started', error 'you can't call RunHandlers on non-running router') are issued; should such a call succeed, the case is inconclusive (what happens then is not specified)",
+			"class reuse: a name may be registered again as soon as AddHandler accepts it (the Router does not require waiting for Stopped()); only one handler is stopping at a time and 3 others keep the router open; router-level registrations are made only when no handler goroutine is starting or stopping (after old.Stopped(), before RunHandlers); Handler.AddMiddleware on the handle of a stopped handler is never called (a registration after the handler's start is unspecified); Router.Handlers() is read only while the stopping handler's goroutine is parked in the logger (it takes no lock)",
 			"data races are not claimed by this property (Router.AddMiddleware takes no lock; the workload orders it after the snapshots by construction)",
 		},
 		Run: run,
@@ -88,7 +105,13 @@ func run(e *vlib.Env) vlib.Result {
 	}
 	class, tag := "rand", "rand"
 	gen := randProgram
-	if k := e.Idx - nb - randCases(e.Tier); k >= aliasCases(e.Tier) {
+	if k := e.Idx - nb - randCases(e.Tier); k >= aliasCases(e.Tier)+retryCases(e.Tier)+rejectedCases(e.Tier) {
+		class, tag = "reuse", "reuse"
+		gen = reuseProgram
+	} else if k >= aliasCases(e.Tier)+retryCases(e.Tier) {
+		class, tag = "rejected", "rejected"
+		gen = rejectedProgram
+	} else if k >= aliasCases(e.Tier) {
 		fam := (k - aliasCases(e.Tier)) % nFamilies
 		class, tag = "retry/"+familyName[fam], "retry"
 		gen = func(r *vlib.Rand, id string) *program { return retryProgram(r, id, fam) }
@@ -200,6 +223,28 @@ func runBatch(e *vlib.Env, class string, n int, prog func(i int) *program) vlib.
 		res.Count("handlers_judged_after_failed_start_call", tot.afterRetry)
 		res.Count("handlers_stopped_by_failed_Run_not_judged", tot.dead)
 		res.NonTrivial = tot.fired > 0 && tot.afterRetry > 0 && tot.pObs+tot.sObs > 0
+	}
+	if class == "rejected" || class == "reuse" {
+		res.Count("rejected_duplicate_name_calls", tot.dupRejected)
+		res.Count("rejected_duplicate_name_calls_on_unstarted_handler_with_middlewares", tot.dupOnPending)
+		res.Count("rejected_RunHandlers_before_Run", tot.earlyRunH)
+		res.Count("rejected_Stop_of_unstarted_handler", tot.earlyStop)
+		res.Count("handlers_judged_after_rejected_call_on_them", tot.rejectedObs)
+		if class == "rejected" {
+			res.NonTrivial = res.NonTrivial && tot.dupOnPending > 0
+		}
+	}
+	if class == "reuse" {
+		res.Count("names_registered_again", tot.reuseRounds)
+		res.Count("names_registered_again_before_Stopped_closed", tot.reuseEarly)
+		res.Count("names_registered_again_after_Stopped_closed", tot.reuseLate)
+		res.Count("reused_name_handlers_judged", tot.reuseJudged)
+		res.Count("reused_name_handlers_inheritance_and_loss_observable", tot.reuseObs)
+		res.Count("bystander_handlers_judged", tot.bystanders)
+		res.Count("logger_calls_of_router_goroutines_held", tot.logParks)
+		res.Count("AddHandler_retries_on_DuplicateHandlerNameError", tot.pollFails)
+		res.Count("Router_Handlers_polls", tot.polls)
+		res.NonTrivial = res.NonTrivial && tot.reuseObs > 0
 	}
 	if smp != nil {
 		res.Sample = smp
